@@ -64,6 +64,9 @@ func (Prop) Assumptions() []string {
 	}
 }
 
+// message is the input text of every run: a JSON document large enough to pass size thresholds
+var message = `{"n": 0, "u": {"n": 0}, "pad": "` + strings.Repeat("x", 300) + `"}`
+
 var varNames = []string{"a", "b"}
 var keyNames = []string{"k1", "k2"}
 
@@ -90,6 +93,13 @@ func (g *gen) leaf() plgen.Stmt {
 		return plgen.Stmt{K: "raw", Op: "acc", Arg: "acc = [[0]]; acc[0][0] = acc[0][0] + 1; obs(acc[0][0])"}
 	case c < 4:
 		return plgen.Stmt{K: "raw", Op: "acc", Arg: "acc = {\"a\": {\"n\": 0}}; acc[\"a\"][\"n\"] = acc[\"a\"][\"n\"] + 1; obs(acc[\"a\"][\"n\"])"}
+	case c < 6:
+		// a container obtained from a builtin (the decoded message) is the script's own as well:
+		// every execution, in whichever script of the call tree, starts from the message
+		if g.r.Intn(2) == 0 {
+			return plgen.Stmt{K: "raw", Op: "accj", Arg: "acc = load_json(_); acc[\"n\"] = acc[\"n\"] + 1; obs(acc[\"n\"])"}
+		}
+		return plgen.Stmt{K: "raw", Op: "accj", Arg: "acc = load_json(_); acc[\"u\"][\"n\"] = acc[\"u\"][\"n\"] + 1; obs(acc[\"u\"][\"n\"])"}
 	case c < 16:
 		return plgen.Stmt{K: "raw", Op: "set", V: v, N: g.tag, Arg: fmt.Sprintf("%s = %d", v, g.tag)}
 	case c < 28:
@@ -397,6 +407,8 @@ func (m *model) stmt(f *mframe, s *plgen.Stmt) bool {
 			m.fields[s.V], m.hasKey[s.V] = x, true
 		case "acc":
 			m.trace = append(m.trace, obsRec{f.name, "", "1"})
+		case "accj":
+			m.trace = append(m.trace, obsRec{f.name, "", "float64(1)"}) // JSON numbers are floats
 		case "obs_var":
 			x, _ := f.lookup(s.V)
 			m.trace = append(m.trace, obsRec{f.name, "var " + s.V, show(x)})
@@ -639,7 +651,7 @@ func (Prop) Run(p *core.Plan) *core.Result {
 	}
 	oneRun := func(run int) *core.Result {
 		pt := input.GetPoint()
-		input.InitPt(pt, "m", map[string]string{"t": "1"}, map[string]any{"message": "x"}, world.BaseTime)
+		input.InitPt(pt, "m", map[string]string{"t": "1"}, map[string]any{"message": message}, world.BaseTime)
 		var rerr *errchain.PlError
 		pv, blown := core.Guard(func() { rerr = scripts["r.p"].Run(pt, hs) })
 		res.Evals++
